@@ -4,7 +4,7 @@
    of an alternative is in text order (one version clause, one architecture list, any number of profile
    groups, in any order). *)
 From Coq Require Import List Ascii String Bool Arith NArith Lia.
-Require Import A1 D3 D4 D5 D6 D14 D9 D10 D12 D13 D15 D16r D17r D18r.
+Require Import A1 D3 D4 D5 D6 D14 D9 D10 D12 D13 D15 D16r D17r D18r D19r D20r.
 Import ListNotations.
 
 (* every field of the grammar, with blanks anywhere between tokens: leading blanks w0; relations
@@ -108,6 +108,74 @@ Theorem C04_local_double_operator : forall c2 x, eqc c2 61 || eqc c2 60 || eqc c
 Proof. exact reject_double_operator. Qed.
 Print Assumptions C04_local_unterminated_bracket.
 Print Assumptions C04_local_double_operator.
+
+(* ---- the rejection classes at ANY position of the field ----
+   D19r.bad_alt B: B is name[:arch], valid clauses, then text on which the clause loop fails.  Each listed class is
+   such a B (the C04_class_* theorems; a blank or an earlier clause before the offending token), and a field that
+   holds a refused alternative anywhere - first or later alternative, first or later relation, any layout of the
+   well-formed relations before it - is rejected. *)
+Theorem C04_reject_at_any_position : forall B, bad_alt B ->
+  (forall w0, all_ws w0 -> parse (w0 ++ B) = Err) /\
+  (forall w0 t p its wb wa, all_ws w0 -> alt_okR t p -> Forall itemR_ok its -> all_ws wb -> all_ws wa ->
+     parse (w0 ++ t ++ more2_text its ++ wb ++ ch 124 :: wa ++ B) = Err) /\
+  (forall w0 r0 more w, all_ws w0 -> lrelR_ok r0 -> Forall (fun wr => all_ws (fst wr) /\ lrelR_ok (snd wr)) more -> all_ws w ->
+     parse (w0 ++ lrel2_text r0 ++ tail2_text more ++ ch 44 :: w ++ B) = Err) /\
+  (forall w0 r0 more w t p its wb wa, all_ws w0 -> lrelR_ok r0 -> Forall (fun wr => all_ws (fst wr) /\ lrelR_ok (snd wr)) more -> all_ws w ->
+     alt_okR t p -> Forall itemR_ok its -> all_ws wb -> all_ws wa ->
+     parse (w0 ++ lrel2_text r0 ++ tail2_text more ++ ch 44 :: w ++ t ++ more2_text its ++ wb ++ ch 124 :: wa ++ B) = Err).
+Proof. exact C04_reject_anywhere. Qed.
+Theorem C04_prefix_alternatives : 
+  (forall name q cl, name <> [] -> forallb namec name = true -> eqc (peek name) 36 = false ->
+     (match q with None => True | Some a => forallb mac (arch_string a) = true /\ parse_arch (arch_string a) = a end) ->
+     clauses_ok (base name q) cl -> alt_okR (name ++ qual_text q ++ clauses_text cl) (result name q cl)) /\
+  (forall p, wf_subst p -> alt_okR (possi_string p) p).
+Proof. exact C04_prefix_alternatives_ok. Qed.
+Section Classes.
+  Variables (name : str) (q : option arch) (cl : list (str * clause)).
+  Hypothesis Hne : name <> [].
+  Hypothesis Hc : forallb namec name = true.
+  Hypothesis Hd : eqc (peek name) 36 = false.
+  Hypothesis Ha : match q with None => True | Some a => forallb mac (arch_string a) = true /\ parse_arch (arch_string a) = a end.
+  Hypothesis W : clauses_ok (base name q) cl.
+  Notation sep w := (cl <> [] \/ w <> []).
+  Theorem C04_class_second_version : forall w y v0, p_ver (result name q cl) = Some v0 -> all_ws w -> sep w ->
+    bad_alt (name ++ qual_text q ++ clauses_text cl ++ w ++ ch 40 :: y).
+  Proof. exact (bad_second_version name q cl Hne Hc Hd Ha W). Qed.
+  Theorem C04_class_second_architecture_list : forall w y, a_list (archs_of (result name q cl)) <> [] -> all_ws w -> sep w ->
+    bad_alt (name ++ qual_text q ++ clauses_text cl ++ w ++ ch 91 :: y).
+  Proof. exact (bad_second_archs name q cl Hne Hc Hd Ha W). Qed.
+  Theorem C04_class_two_names : forall w c x, all_ws w -> sep w -> is_ws c = false ->
+    eqc c 44 || eqc c 124 || eqc c 0 = false -> eqc c 40 = false -> eqc c 91 = false -> eqc c 60 = false ->
+    bad_alt (name ++ qual_text q ++ clauses_text cl ++ w ++ c :: x).
+  Proof. exact (bad_two_names name q cl Hne Hc Hd Ha W). Qed.
+  Theorem C04_class_unknown_operator : forall w rest, all_ws w -> sep w -> p_ver (result name q cl) = None -> parse_operator rest = Err ->
+    bad_alt (name ++ qual_text q ++ clauses_text cl ++ w ++ ch 40 :: rest).
+  Proof. exact (bad_unknown_operator name q cl Hne Hc Hd Ha W). Qed.
+  Theorem C04_class_unterminated_version : forall w op rest, all_ws w -> sep w -> p_ver (result name q cl) = None ->
+    In op ops -> opnext rest = true -> forallb numc rest = true ->
+    bad_alt (name ++ qual_text q ++ clauses_text cl ++ w ++ ch 40 :: op ++ rest).
+  Proof. exact (bad_unterminated_version name q cl Hne Hc Hd Ha W). Qed.
+  Hypothesis Hempty : p_archs (result name q cl) = Some {| a_not := false; a_list := [] |}.
+  Theorem C04_class_mixed_negation : forall nt items w w0 T, all_ws w -> sep w -> all_ws w0 -> items <> [] ->
+    Forall (wf_archent nt) (map fst items) -> seps1 items ->
+    is_ws (peek T) = false -> eqc (peek T) 0 = false -> eqc (peek T) 93 = false -> T <> [] ->
+    Bool.eqb nt (eqc (peek T) 33) = false ->
+    bad_alt (name ++ qual_text q ++ clauses_text cl ++ w ++ ch 91 :: w0 ++ items_text nt items ++ T).
+  Proof. exact (bad_mixed_negation name q cl Hne Hc Hd Ha W Hempty). Qed.
+  Theorem C04_class_unterminated_bracket : forall nt items w w0 tail, all_ws w -> sep w -> all_ws w0 ->
+    Forall (wf_archent nt) (map fst items) -> seps1 items -> forallb archc tail = true ->
+    bad_alt (name ++ qual_text q ++ clauses_text cl ++ w ++ ch 91 :: w0 ++ items_text nt items ++ tail).
+  Proof. exact (bad_unterminated_bracket name q cl Hne Hc Hd Ha W Hempty). Qed.
+End Classes.
+Theorem C04_reject_unterminated_substvar_at_any_relation : forall nm, forallb subc nm = true ->
+  (forall w0, all_ws w0 -> parse (w0 ++ ch 36 :: ch 123 :: nm) = Err) /\
+  (forall w0 r0 more w, all_ws w0 -> lrelR_ok r0 -> Forall (fun wr => all_ws (fst wr) /\ lrelR_ok (snd wr)) more -> all_ws w ->
+     parse (w0 ++ lrel2_text r0 ++ tail2_text more ++ ch 44 :: w ++ ch 36 :: ch 123 :: nm) = Err).
+Proof. exact C04_reject_open_substvar_anywhere. Qed.
+Print Assumptions C04_reject_at_any_position.
+Print Assumptions C04_class_two_names.
+Print Assumptions C04_class_mixed_negation.
+Print Assumptions C04_reject_unterminated_substvar_at_any_relation.
 
 (* parse never runs out of fuel and returns a value or an error, never both *)
 Theorem C04_total : forall x, parse x <> OutOfFuel.
